@@ -2,7 +2,8 @@
 
 M1 both inputs unchanged (Mod = empty)        M2 the result shares no memory with the inputs (fresh copies; group names in the result's own list)
 M3 cpy_file_entry copies every field          M4 every write to the output array stays inside it (charging argument)
-M5 no index E-k with unsigned E unless E >= k is established        M6 on a key match the override's value wins"""
+M5 no index E-k with unsigned E unless E >= k is established        M6 on a key match the override's value wins
+M7 a key defined on both sides is not inserted a second time (exactly one visible value per key)"""
 import re
 
 from sa.ast import render
@@ -17,8 +18,8 @@ META = {
                  "syntactic charging argument for the output-array bound, guarded-index rule",
     "level_text": "Decides non-destructive (both inputs unchanged, result shares no memory with them) and bounded (every write to the output "
                   "array is charged to one iteration of a loop over one input, so at most base.length + override.length writes happen - the "
-                  "array's capacity) for all pairs of configurations including empty bases and re-opened sections. Not decided: "
-                  "completeness and order of the merged result.",
+                  "array's capacity), override-wins and no-duplicate-insertion for all pairs of configurations including empty bases "
+                  "and re-opened sections. Not decided: completeness and relative order of the merged result.",
     "level_note": "Partial. M4 proves the bound when it passes; it is deliberately syntactic - a merge whose bound needs value reasoning "
                   "is INCONCLUSIVE, not a pass. Trusted: clang front end/CFG, sa/mod.py.",
     "explanation": "Mod(merge, inputs) = empty; fresh copies; charging argument for the output array; guarded E-k indices",
@@ -254,6 +255,32 @@ def run(prog, ctx):
                              "`%s` is unsigned and the index %s is reachable with %s == 0 (e.g. an empty base file): element [-1] of the array is read" % (e, render(idx), e),
                              key="underflow:%s:%s" % (h.name, render(x)), path=cfg.describe_path(wp)[-6:])
     ctx.counts["M5 indices E-k"] = n5
+    # ---- M7 a key both sides define is not inserted a second time ----------------------------------------------
+    for h, st, l, inner in charges.get("override", []):
+        cfg = h.cfg
+        hb = [b2 for b2 in cfg.blocks.values() if b2.term is inner][0].id
+        eq_edges = []
+        for (bb, ii, s2) in cfg.edges():
+            lit = cfg.edge_lit(bb, ii)
+            if lit is not None and lit.kind == "truth" and not lit.pol and lit.node.k == "CallExpr" and lit.node.j.get("callee") == "strcmp" \
+                    and all(".key" in render(a2) for a2 in lit.node.call_args()) and cfg.blocks[bb].cond.within(inner):
+                eq_edges.append((bb, ii, s2))
+        if not eq_edges:
+            ctx.inconclusive("M7", "%s: a key defined on both sides is not inserted again" % h.name, st.where, "no key comparison found in the insertion loop")
+            continue
+        bad = None
+        for (bb, ii, s2) in eq_edges:
+            wp = cfg.feasible_reach(cfg.block_of(st), lambda lit, b3, i3: cfg.blocks[b3].succs[i3] == hb, lambda a2: re.match(r"^\w+$", a2) is not None, start=s2)
+            if wp is not None:
+                bad = (bb, wp)
+        if bad:
+            ctx.fail("M7", "%s: a key defined on both sides is not inserted again" % h.name, st.where,
+                     "after the key comparison found the override's key in the result, the same iteration still reaches the insertion: the key "
+                     "appears twice (the base position holding the override's value, and a second copy)", key="dup-insert:%s" % h.name,
+                     path=cfg.describe_path(bad[1])[-6:])
+        else:
+            ctx.ok("M7", "%s: a key defined on both sides is not inserted again" % h.name, st.where,
+                   "from the key-equality edge the insertion is unreachable in that iteration (flag reasoning on the path)")
     # ---- M2 / M3 / M6 ---------------------------------------------------------------------------------------------
     cp = prog.fn("cpy_file_entry")
     ctx.touch(cp)
